@@ -452,6 +452,13 @@ def new_kernel(chooser, max_steps=4000, trace_ops=False):
     global KER
     install()
     gc.disable()
+    # names of actors, processes, pipes and anonymous semaphores restart with every scenario: a recorded schedule (which names
+    # the actor chosen at each step) can then be replayed in a fresh process
+    import itertools
+    K.Actor._ids = itertools.count(1)
+    K.SimProcessState._pids = itertools.count(1000)
+    K.SimSemLock._names = itertools.count(1)
+    K.SimPipeCore._ids = itertools.count(1)
     kern = K.Kernel(chooser, max_steps=max_steps, trace_ops=trace_ops)
     KER = kern
     del OPLOG[:]
